@@ -25,8 +25,9 @@ BUDGET = {'quick': 6000, 'thorough': 160000}
 PROFILE = {
     'max_parts': 3,
     'weights': {'app': 12, 'move': 4, 'renew': 3, 'adv': 4, 'freeze': 2,
-                'down': 2, 'tick': 2, 'renewearly': 3},
-    'force': ['move', 'adv', 'renewearly'],
+                'down': 2, 'tick': 2, 'renewearly': 3, 'freezepress': 3,
+                'notupmove': 3},
+    'force': ['move', 'adv', 'renewearly', 'freezepress', 'notupmove'],
 }
 
 
